@@ -96,6 +96,15 @@ func init() {
 				}
 			}
 		}
+		// (2b) digits outside ASCII in place of hex digits (the text length changes: must be rejected)
+		if d.Shard == 2%d.NShards {
+			v := string(text(ones))
+			for _, cf := range confusables {
+				for pos := 0; pos < len(v); pos += 3 {
+					parse([]byte(v[:pos]+cf+v[pos+1:]), 0, "s")
+				}
+			}
+		}
 		// (3) random texts near the grammar, all rules
 		for i := 0; i < nr/d.NShards; i++ {
 			v := text(rnd())
